@@ -47,7 +47,10 @@ OtherIri(n) == Iri(Base \o "other/" \o ToString(n))
 RECURSIVE OtherItem(_)
 OtherItem(v) ==
   CASE v.k = "iri" -> OtherIri(1)
-    [] v.k = "obj" -> IF "id" \in DOMAIN v.p THEN With(v, "id", Str(Base \o "other/" \o v.g)) ELSE OtherIri(2)
+    [] v.k = "obj" -> IF "id" \in DOMAIN v.p THEN With(v, "id", Str(Base \o "other/" \o v.g))
+                      ELSE IF "href" \in DOMAIN v.p THEN With(v, "href", Str(Base \o "other/href"))       \* the same kind of item, pointing elsewhere
+                      ELSE IF "name" \in DOMAIN v.p THEN With(v, "name", Nlv(<<LR(NilTag, "another name")>>))
+                      ELSE OtherIri(2)
     [] v.k = "list" -> ListOf([i \in 1..Len(v.e) |-> IF v.e[i].k = "iri" THEN OtherIri(10 + i) ELSE OtherItem(v.e[i])])
     [] OTHER -> OtherIri(3)
 OtherVal(kind, v) ==
